@@ -27,6 +27,29 @@ Theorem C05_timeline_inhabited :
 Proof. exact timeline_hyps_inhabited. Qed.
 Print Assumptions C05_timeline_inhabited.
 
+(* task.wait_until(state_hold=S, timeout=T): the overall timeout runs next to the state_hold timer; the call returns
+   whichever is due first — the pending state run if its instant is strictly before T, else {"trigger_type": "timeout"}
+   at T (run (T, timeout_id)); reference.rst: "return that number of seconds after the first state trigger (unless a
+   different trigger type or a timeout occurs first)".  Both wait_until models equal the Spec for every T (None included),
+   on histories where additionally no input and no p+S lies within the epsilons of T. *)
+Theorem C05_timeline_timeout : forall dv c T init h,
+  all_off dv -> sorted_times h = true -> no_ties_t c T h = true -> any_ok c h = true ->
+  wul_runs_t dv c T init h = spec_runs_t c T init h /\ wud_runs_t dv c T init h = spec_runs_t c T init h.
+Proof. exact timeline_timeout. Qed.
+Print Assumptions C05_timeline_timeout.
+
+Theorem C05_timeline_timeout_inhabited :
+  let c := {| check_now := None; hold := Some 2500000; hold_false := None |} in
+  let h := [(1000000, HEval true 1%N); (2000000, HEval true 2%N)] in
+  sorted_times h = true /\ no_ties_t c (Some 2250000) h = true /\ any_ok c h = true
+  /\ spec_runs_t c (Some 2250000) false h = [(2250000, timeout_id)]
+  /\ spec_runs_t c (Some 3750000) false h = [(3500000, 1%N)]
+  /\ spec_runs_t c (Some 1250000) true [] = [(1250000, timeout_id)]
+  /\ wul_runs_t no_dev c (Some 2250000) false h = [(2250000, timeout_id)]
+  /\ wud_runs_t no_dev c (Some 2250000) false h = [(2250000, timeout_id)].
+Proof. exact timeout_hyps_inhabited. Qed.
+Print Assumptions C05_timeline_timeout_inhabited.
+
 (* last sentence of the property: removing every input that causes no evaluation (unwatched entities, attribute-only
    updates) changes no run of any implementation model *)
 Theorem C05_irrelevant_no_effect : forall dv c init h,
